@@ -122,9 +122,9 @@ func init() {
 	}
 	propDefs["C16"] = &PropDef{
 		ID:   "C16",
-		Pkgs: []pkgRef{{"util/resolve", "deps.dev/util/resolve/pypi"}},
+		Pkgs: []pkgRef{{"util/resolve", "deps.dev/util/resolve/pypi"}, {"util/pypi", "deps.dev/util/pypi"}},
 		Assume: []string{
-			"partial: markerExpr.Eval against the PEP 508 operator table on strings, `extra` membership, and delegation to the version constraint; requirement and marker parsing, name normalisation and the and/or combinators are not covered",
+			"partial: markerExpr.Eval against the PEP 508 operator table on strings, `extra` membership, and delegation to the version constraint; CanonPackageName on names over [-_.A-Za-z0-9] yields only [a-z0-9-] with no two '-' in a row (its buffer is a ghost byte sequence: bytes.Buffer WriteByte/String are modelled, not verified); requirement and marker parsing, idempotence of the normalisation and the and/or combinators are not covered",
 		},
 	}
 	propDefs["C02"] = &PropDef{
